@@ -1,18 +1,77 @@
 /-
-C05 — Lean-checked witnesses of why the explicit crash outcome and the side conditions are needed.
-(The exec-level witnesses of the two repaired defects are replayed on the real driver instead: see notes/C05.md —
-evaluating `exec` on concrete programs inside the kernel proved too slow to keep the build in seconds.)
+C05 — Lean-checked witnesses: what the two repaired defects looked like on the model (small instances, evaluated by
+`simp` with the model's definitions), and why the side conditions / explicit crash outcome are needed.
 -/
 import NV.C05.Model
 import NV.C05.Props
 
 namespace NV.C05
 
-/-- the defect repaired by `fix: safe_apply() removes its arguments ...`: with the stack pointer below the saved one
-    `restore_context` computes a negative count — the model's explicit crash outcome -/
+local macro "evalm" : tactic => `(tactic|
+  simp [execCore, exec, execOp, saveContext, pushFrame, tick, raise, raiseInner, throwVal, catchable, resetGuards,
+    runHandler, runHandlerN, tickOr, pushVals, longjmp, thenTick, catchFinish, safeFinish, callFinish, leaveCall, safeCtx,
+    restoreContext, popFrame, popN, popStack, afterCatch, popContext, limitBits, handlerRegs, masterVal, enterCall,
+    adjustArgs, framesOf, hasReturnTick, depthCheck, setRegister, topBody, topFinish, tmpFinish, loadFinish])
+
+def okInstalled : Res → Option (List String)
+  | .ok m => some m.installed
+  | _ => none
+
+def okDepth : Res → Option (Nat × Nat × Nat)     -- (values, frames, contexts) after a completed construct
+  | .ok m => some (m.vs.length, m.cs.length, m.ctxs.length)
+  | _ => none
+
+def isCrash : Res → Bool
+  | .crash _ _ => true
+  | _ => false
+
+/-- input_to as it was before `fix: input_to()/get_char() validate the callback …`: set_call first, error after -/
+def preFixInputTo : InstallSite := { name := "input_to", failMsg := "nf", beforeLastError := true }
+def fixedInputTo : InstallSite := { name := "input_to", failMsg := "nf", beforeLastError := false }
+
+/-- the defect: `catch(input_to("no_such_fn"))` completes, and the half-installed sentence is still there -/
+theorem prefix_input_to_leaves_sentence :
+    okInstalled (execCore (.catch_ (.cons (.install preFixInputTo true) .nil)) {}) = some ["input_to"] := by
+  simp [okInstalled, preFixInputTo]; evalm
+
+/-- the repaired order: nothing is installed -/
+theorem fixed_input_to_leaves_nothing :
+    okInstalled (execCore (.catch_ (.cons (.install fixedInputTo true) .nil)) {}) = some [] := by
+  simp [okInstalled, fixedInputTo]; evalm
+
+/-- the state in which an error arrives inside a master function that was safe_apply'd with two arguments but
+    declares none (they were dropped on entry): the value stack is empty, one frame, one context -/
+def surplusErr : M :=
+  { vs := [], cs := [Frame.mk FK.function {}], ctxs := [Ctx.mk 2 0 0] }
+
+def leakErr : M :=
+  { vs := [Slot.val, Slot.val], cs := [Frame.mk FK.function {}], ctxs := [Ctx.mk 1 0 0] }
+
+/-- the defect repaired by `fix: safe_apply() removes its arguments …`: with the context as saved (save_sp counts
+    the two arguments) restore_context computes a negative pop count — the crash outcome -/
+theorem prefix_safe_apply_surplus_crashes :
+    isCrash (safeFinish { saveSp := 2, saveCsp := 0, saveCg := 0 } [] 0 (.err surplusErr)) = true := by
+  simp [isCrash, surplusErr]; evalm
+
+/-- the same state with the repaired context (`save_sp = sp - num_arg`): recovery completes on empty stacks -/
+theorem fixed_safe_apply_surplus_recovers :
+    okDepth (safeFinish (safeCtx 2 { saveSp := 2, saveCsp := 0, saveCg := 0 }) [] 0 (.err surplusErr)) = some (0, 0, 0) := by
+  simp [okDepth, surplusErr]; evalm
+
+/-- and the leak: one argument, one declared, error in the callee — as saved, the argument stays on the stack -/
+theorem prefix_safe_apply_leaks_argument :
+    okDepth (safeFinish (Ctx.mk 1 0 0) [] 1 (.err leakErr)) = some (1, 0, 0) := by
+  simp [okDepth, leakErr]; evalm
+
+/-- end to end through the model's (repaired) safe_apply: two arguments, none declared, the callee raises -/
+theorem fixed_safe_apply_end_to_end :
+    okDepth (execCore (.safeApply 2 0 (.cons (.raise "*boom") .nil)) {}) = some (0, 0, 0) := by
+  simp [okDepth]; evalm
+
+/-- the explicit crash outcome: `pop_n_elems (sp - save_sp)` with sp below save_sp -/
 theorem negative_pop_is_a_crash :
-    ∃ w m', restoreContext { saveSp := 2, saveCsp := 0, saveCg := 0 } { vs := [Slot.val] } = .crash w m' :=
-  ⟨_, _, rfl⟩
+    isCrash (restoreContext { saveSp := 2, saveCsp := 0, saveCg := 0 } { vs := [Slot.val] }) = true := by
+  simp [isCrash]; evalm
 
 /-- why the all-registers clause of `restore_is_inverse` needs its hypothesis: when the first frame pushed after the
     save holds other register values (a register was changed between the save and the push), those are what
@@ -20,5 +79,20 @@ theorem negative_pop_is_a_crash :
 theorem changed_register_is_not_restored :
     ∃ m', restoreContext (ctxOf {}) { cs := [Frame.mk FK.function { co := 9 }], r := { co := 3 } } = .ok m' ∧ m'.r.co = 9 :=
   ⟨_, rfl, rfl⟩
+
+def errLoadDepth : Res → Option Int
+  | .err m => some m.loadDepth
+  | _ => none
+
+/-- `throw()` goes straight to longjmp without `error_handler`: unlike an error, a thrown value caught by a catch
+    does NOT reset the load-depth guard (observation recorded in notes/C05.md) -/
+def inCatchLoading : M :=
+  { loadDepth := 3, inMudlibHandler := true, cs := [Frame.mk FK.catch_ {}], ctxs := [Ctx.mk 0 0 0] }
+
+theorem throw_does_not_reset_guards : errLoadDepth (throwVal "t" inCatchLoading) = some 3 := by
+  simp [errLoadDepth, inCatchLoading]; evalm
+
+theorem error_resets_guards_example : errLoadDepth (raise "*e" inCatchLoading) = some 0 := by
+  simp [errLoadDepth, inCatchLoading]; evalm
 
 end NV.C05
